@@ -379,12 +379,24 @@ func (s *ProofStructure) CommitmentsFromSecrets(g *gabikeys.PublicKey, m, mRando
 // descriptor (sign, factor, bound, size of the squares) and the commitments to the squares. They must
 // be part of the challenge input. Otherwise a prover can choose the bound and the commitments after
 // having seen the challenge, which allows it to make a verifying proof for any inequality.
+//
+// All values are non-negative (the sign of the statement and that of the bound are encoded as 0 or
+// 1): challenge contributions also travel to the keyshare server, in encodings that do not
+// support negative numbers.
 func (s *ProofStructure) statementContributions(cs []*big.Int) []*big.Int {
+	negative := func(b bool) *big.Int {
+		if b {
+			return big.NewInt(1)
+		}
+		return big.NewInt(0)
+	}
 	contributions := []*big.Int{
-		big.NewInt(int64(s.index)),
-		big.NewInt(int64(s.sign)),
+		new(big.Int).Abs(big.NewInt(int64(s.index))),
+		negative(s.index < 0),
+		negative(s.sign < 0),
 		new(big.Int).SetUint64(uint64(s.a)),
-		new(big.Int).Set(s.k),
+		new(big.Int).Abs(s.k),
+		negative(s.k.Sign() < 0),
 		new(big.Int).SetUint64(uint64(s.ld)),
 	}
 	return append(contributions, cs...)
